@@ -18,6 +18,7 @@ import M4riProofs.GenTie
 import M4riProofs.GenTieTab
 import M4riProofs.GenTieDuff
 import M4riProofs.GenTieStrassen
+import M4riProofs.GenTieStrassen2
 namespace M4ri.Props.C01
 open M4ri M4ri.BMat
 
@@ -129,5 +130,16 @@ theorem routes_agree (fuel cutoff k auto ntables thin thin' : Nat) (junk : Nat â
 #check @M4ri.GenTieStrassen.strassenMulEven_step_mul
 #check @M4ri.GenTieStrassen.strassenMulEven_base
 #check @M4ri.GenTieStrassen.strassenMulEven_split
+
+
+/-! ### tie to the C text: the other three COMPLETE Strassen-Winograd routines `_mzd_addmul_even`, `_mzd_sqr_even` (the squaring route taken when
+    both factors are the same object), `_mzd_addsqr_even`, generated on every check; each equals one step of the model, hence `C + AÂ·B`,
+    `AÂ·A`, `C + AÂ·A` (GenTieStrassen2.lean) -/
+#check @M4ri.GenTieStrassen2.strassenAddmulEven_step
+#check @M4ri.GenTieStrassen2.strassenSqrEven_step
+#check @M4ri.GenTieStrassen2.strassenAddsqrEven_step
+#check @M4ri.GenTieStrassen2.strassenAddmulEven_step_add
+#check @M4ri.GenTieStrassen2.strassenSqrEven_step_mul
+#check @M4ri.GenTieStrassen2.strassenAddsqrEven_step_add
 
 end M4ri.Props.C01
